@@ -511,6 +511,21 @@ func (g *streamGen) fileIDOps() {
 			d.Fields = append([][3]int{fd}, d.Fields...)
 		}
 	}
+	if g.o.Unknown && r.Chance(1, 4) {
+		// unlisted field numbers in the leading file_id record too
+		used := map[int]bool{}
+		for _, fd := range d.Fields {
+			used[fd[0]] = true
+		}
+		for k := r.Range(1, 2); k > 0; k-- {
+			if n := unlistedField(r, 0, used); n >= 0 {
+				fd, _ := genAnyField(r, n)
+				pos := r.Intn(len(d.Fields) + 1)
+				d.Fields = append(d.Fields[:pos], append([][3]int{fd}, d.Fields[pos:]...)...)
+				used[n] = true
+			}
+		}
+	}
 	g.emitDef(d)
 	g.emitData(local, false, 0, g.dataFor(d, map[int][]byte{0: {g.o.FT}}))
 }
@@ -801,10 +816,20 @@ func jumboOps(r *Rng, local byte) []Op {
 		d.Fields = append(d.Fields, [3]int{num, size, int(b.Byte)})
 		total += size
 	}
-	if r.Chance(1, 2) {
+	switch r.Intn(4) {
+	case 0, 1:
 		for k := r.Range(1, 255); k > 0; k-- {
 			sz := r.Range(0, 6)
 			d.Dev = append(d.Dev, [3]int{r.Intn(256), sz, r.Intn(8)})
+			total += sz
+		}
+	case 2:
+		// the largest developer-field list there is, without a single zero byte:
+		// whatever scratch space the decoder reads definitions into is left
+		// completely non-zero for the records that follow
+		for k := 0; k < 255; k++ {
+			sz := r.Range(1, 3)
+			d.Dev = append(d.Dev, [3]int{1 + r.Intn(255), sz, 1 + r.Intn(7)})
 			total += sz
 		}
 	}
@@ -854,4 +879,55 @@ func withJumbo(r *Rng, rs *RecStream) {
 	no = append(no, j...)
 	no = append(no, rs.Ops[pos:]...)
 	rs.Ops = no
+}
+
+// manyDefsStream: a definition that stays live on one local type while n
+// (more than 256) distinct other definitions pass through the remaining local
+// types, then records for the first one again - anything that keeps
+// definitions in a bounded table (256 entries, one byte of index, a ring) must
+// not lose or replace a definition that is still in force.
+func manyDefsStream(r *Rng, n int) *RecStream {
+	g := &streamGen{r: r, o: StreamOpts{FT: 4, Arch: 2}}
+	g.emitDef(&DefOp{Local: 0, Arch: g.arch(), Global: 0, Fields: [][3]int{{0, 1, 0}}})
+	g.emitData(0, false, 0, []byte{4})
+	keep := byte(1 + r.Intn(15))
+	kd := &DefOp{Local: keep, Arch: g.arch(), Global: 20, Fields: [][3]int{{3, 1, 2}, {4, 1, 2}, {7, 2, 0x84}}}
+	g.emitDef(kd)
+	rec := func() {
+		b := []byte{byte(1 + r.Intn(200)), byte(1 + r.Intn(200)), 0, 0}
+		putN(b[2:], kd.be(), uint64(r.Intn(2000)))
+		g.emitData(keep, false, 0, b)
+	}
+	rec()
+	for i := 0; i < n; i++ {
+		l := byte(r.Intn(16))
+		for l == keep || l == 0 {
+			l = byte(r.Intn(16))
+		}
+		d := &DefOp{Local: l, Arch: g.arch(), Global: 0xFF00 + uint16(i%200)}
+		nf := 1 + i%3
+		tot := 0
+		for k := 0; k < nf; k++ {
+			sz := 1 + (i/3+k)%4
+			d.Fields = append(d.Fields, [3]int{1 + (i+k*7)%250, sz, 0x0D})
+			tot += sz
+		}
+		// make the field bytes distinct per definition
+		d.Fields[0][0] = 1 + i%250
+		d.Fields[0][1] = 1 + (i/250)%6
+		tot = 0
+		for _, fd := range d.Fields {
+			tot += fd[1]
+		}
+		g.emitDef(d)
+		if r.Chance(1, 3) {
+			g.emitData(l, false, 0, r.Bytes(tot))
+		}
+		if r.Chance(1, 40) {
+			rec()
+		}
+	}
+	rec()
+	rec()
+	return &RecStream{Header: HeaderSpec{Size: 12 + 2*r.Intn(2), Proto: 0x20, Profile: 2115, HCRC: "ok"}, Ops: g.ops}
 }
